@@ -12,6 +12,7 @@ Declined: "strictly mutual nearest neighbours are always paired" and order prese
 """
 from __future__ import annotations
 
+import ast
 from ..loader import AnalysisError, mangle
 from .. import terms as T
 from ..terms import C, V
@@ -156,9 +157,49 @@ def absolute_positions(ck, rule):
              q.where, "constructor stores the label and the seed offset under their own names", found=str(m))
 
 
+CONVERSIONS = {"int", "float", "round", "abs", "floor", "ceil", "trunc", "rint", "around"}
+
+
+def stored_unconverted(ck, rule):
+    """the position classes keep the coordinates, offsets and scores their constructors receive: no int()/round()/abs() on the
+    way in (label positions and offsets of real maps are decimals; a truncated offset no longer equals
+    query position - (reference position - seed), and truncated distances tie where the nearest label is unique)"""
+    ck.clause(rule, "position objects store coordinates and offsets as given (no rounding / truncation in their constructors)")
+    p = ck.ctx.p
+    mods = ("src.alignment.alignment_position", "src.correlation.optical_map", "src.correlation.peak")
+    n = 0
+    hit = False
+    for c in p.classes.values():
+        if c.module.name not in mods:
+            continue
+        for mname in ("__init__", "__post_init__"):
+            m = c.methods.get(mname)
+            if m is None or not m.self_name:
+                continue
+            params = {pp.name for pp in m.call_params()}
+            for node in ast.walk(m.node):
+                if isinstance(node, ast.Assign) and len(node.targets) == 1 and isinstance(node.targets[0], ast.Attribute) \
+                        and isinstance(node.targets[0].value, ast.Name) and node.targets[0].value.id == m.self_name:
+                    n += 1
+                    for call in ast.walk(node.value):
+                        if isinstance(call, ast.Call):
+                            fname = call.func.id if isinstance(call.func, ast.Name) else call.func.attr if isinstance(call.func, ast.Attribute) else ""
+                            uses = {x.id for a in call.args for x in ast.walk(a) if isinstance(x, ast.Name)} & params
+                            if fname in CONVERSIONS and uses:
+                                hit = True
+                                ck.violation(rule, f"{c.name}.{mname}:{node.targets[0].attr}", where(m, node),
+                                             f"{c.name} stores a converted copy of its `{sorted(uses)[0]}` argument: decimal coordinates / "
+                                             "offsets are changed on the way in", found=ast.unparse(node)[:120],
+                                             required=f"self.{node.targets[0].attr} = {sorted(uses)[0]}")
+    ck.floor(f"{rule} constructor stores inspected", n, 15)
+    if not hit:
+        ck.ok(rule, "position classes", "src/alignment/alignment_position.py", f"{n} constructor stores: none converts its argument")
+
+
 def run(ck):
     ctx = ck.ctx
     p = ctx.p
+    stored_unconverted(ck, "C12.7")
     ck.clause("C12.1", "reference and candidate windows are closed intervals widened by maxDistance")
     ck.clause("C12.2", "offset = query position - (reference position - seed)")
     ck.clause("C12.3", "unpaired = complement (by siteId) of the returned de-duplicated pairs over the same position lists")
